@@ -482,6 +482,84 @@ theorem exIbltHash_faithful : Faithful exIbltHash (fun x => x = 1 ∨ x = 2) := 
 example : envDecode exIbltHash ⟨6, 64⟩ 16 [1] (.ofSet [2, 1]) = .ok [2] := by decide
 example : decode exIbltHash ⟨6, 64⟩ 5 ((subtract (encode exIbltHash ⟨6, 64⟩ 16 [1]) (encode exIbltHash ⟨6, 64⟩ 16 [2])).getD []) = .ok [1] [2] := by decide
 
+/-- the oracle record with the MODELLED IBLT in place of the decode oracle (sort and ECIES stay oracles) -/
+def ibltEnv (H : Hash) (P : Par) (n : Nat) (order : List Tx → List Tx) (dec : String → Nat → DecRes) : Env :=
+  { decode := envDecode H P n, order := order, dec := dec }
+
+/-- **the decode hypothesis of the liveness theorems is discharged by the modelled algorithm**: with a hash that is faithful on
+    the keys in play, `Subtract` + `Decode` of NutsModel/C07/Iblt.lean satisfy `DC` -/
+theorem modelled_iblt_satisfies_DC (H : Hash) (P : Par) {n : Nat} (hn : 0 < n) (hk : 0 < P.k) (hm : 0 < P.maxChain)
+    (hF : Faithful H (fun _ => True)) (order : List Tx → List Tx) (dec : String → Nat → DecRes) :
+    DC (ibltEnv H P n order dec) := by
+  refine ⟨?_, ?_, ?_⟩
+  · intro loc peer m hl hp h
+    exact (iblt_decode_contract H P (fun _ => True) hn hk hm hF loc peer hl hp (fun _ _ => trivial) (fun _ _ => trivial)).1 m h
+  · intro loc peer hl hp h
+    exact (iblt_decode_contract H P (fun _ => True) hn hk hm hF loc peer hl hp (fun _ _ => trivial) (fun _ _ => trivial)).2.1 h
+  · intro loc peer hl hp
+    exact (iblt_decode_contract H P (fun _ => True) hn hk hm hF loc peer hl hp (fun _ _ => trivial) (fun _ _ => trivial)).2.2
+
+/-- the liveness hypotheses `Hyp` for the constants of the source with the modelled IBLT run at the regenerated parameters
+    (k = ibltK, chain bound = ibltMaxChain, IbltNumBuckets buckets): what is left as a hypothesis of `pull_round_result`,
+    `round_progress` and `converges` about the IBLT is the faithfulness of the hash alone -/
+theorem liveness_hypotheses_with_modelled_iblt (maxMsg validity : Nat) (H : Hash) (hF : Faithful H (fun _ => True))
+    (order : List Tx → List Tx) (dec : String → Nat → DecRes)
+    (hord : OrderOK (ibltEnv H ⟨Facts.C07.ibltK, Facts.C07.ibltMaxChain⟩ Facts.C07.ibltNumBuckets order dec)) :
+    Hyp (factCfg maxMsg validity) (ibltEnv H ⟨Facts.C07.ibltK, Facts.C07.ibltMaxChain⟩ Facts.C07.ibltNumBuckets order dec) :=
+  fact_hyp maxMsg validity _
+    (modelled_iblt_satisfies_DC H ⟨Facts.C07.ibltK, Facts.C07.ibltMaxChain⟩ (by decide) (by decide) (by decide) hF order dec) hord
+
+/-- non-vacuity of faithfulness on ALL keys (the model's key type is unbounded): hashKey x = 2^(x+1) -/
+def exPowHash : Hash := { hashKey := fun x => 2 ^ (x + 1), chain0 := fun h => h, chain := fun x => x + 1 }
+
+theorem pow_hash_bits : ∀ (S : List Nat), S.Nodup → ∀ i,
+    (xorL (S.map (fun x => 2 ^ (x + 1)))).testBit i = decide (∃ x ∈ S, x + 1 = i)
+  | [], _, i => by simp [xorL]
+  | a :: S, hnd, i => by
+    have ih := pow_hash_bits S (List.nodup_cons.mp hnd).2 i
+    have hx : xorL ((a :: S).map (fun x => 2 ^ (x + 1))) = 2 ^ (a + 1) ^^^ xorL (S.map (fun x => 2 ^ (x + 1))) := rfl
+    rw [hx, Nat.testBit_xor, Nat.testBit_two_pow, ih]
+    by_cases h : a + 1 = i
+    · have hno : ¬ ∃ x ∈ S, x + 1 = i := by
+        rintro ⟨x, hx', hxi⟩
+        have : x = a := by omega
+        subst this
+        exact (List.nodup_cons.mp hnd).1 hx'
+      simp [h, hno]
+    · simp [h]
+
+theorem exPowHash_faithful : Faithful exPowHash (fun _ => True) := by
+  constructor
+  · intro S hnd _ hlen heq
+    match S, hnd, hlen, heq with
+    | a :: b :: rest, hnd, _, heq =>
+      have hab : a ≠ b := by
+        intro h; subst h
+        exact (List.nodup_cons.mp hnd).1 (by simp)
+      have hbits := pow_hash_bits (a :: b :: rest) hnd
+      have e : xorL ((a :: b :: rest).map exPowHash.hashKey) = 2 ^ (xorL (a :: b :: rest) + 1) := heq.symm
+      have ha := hbits (a + 1)
+      have hb := hbits (b + 1)
+      rw [show (fun x => 2 ^ (x + 1)) = exPowHash.hashKey from rfl, e, Nat.testBit_two_pow] at ha hb
+      have ha' : xorL (a :: b :: rest) + 1 = a + 1 := by
+        have : decide (∃ x ∈ a :: b :: rest, x + 1 = a + 1) = true := by simp
+        rw [this] at ha; simpa using ha
+      have hb' : xorL (a :: b :: rest) + 1 = b + 1 := by
+        have : decide (∃ x ∈ a :: b :: rest, x + 1 = b + 1) = true := by simp
+        rw [this] at hb; simpa using hb
+      exact hab (Nat.succ.inj (ha'.symm.trans hb'))
+  · intro S hnd _ hne ⟨_, h0⟩
+    match S, hnd, hne, h0 with
+    | a :: rest, hnd, _, h0 =>
+      have hbits := pow_hash_bits (a :: rest) hnd (a + 1)
+      rw [show (fun x => 2 ^ (x + 1)) = exPowHash.hashKey from rfl, h0] at hbits
+      simp at hbits
+
+example : DC (ibltEnv exPowHash ⟨6, 64⟩ 1024 idealEnv.order idealEnv.dec) :=
+  modelled_iblt_satisfies_DC exPowHash ⟨6, 64⟩ (by decide) (by decide) (by decide) exPowHash_faithful _ _
+example : Hyp (factCfg 524288 30) (ibltEnv exPowHash ⟨Facts.C07.ibltK, Facts.C07.ibltMaxChain⟩ Facts.C07.ibltNumBuckets idealEnv.order idealEnv.dec) :=
+  liveness_hypotheses_with_modelled_iblt 524288 30 exPowHash exPowHash_faithful _ _ ⟨idealEnv_OrderOK.perm, idealEnv_OrderOK.sorted⟩
+
 /-- regenerated constants of iblt.go the model is run with (`Driver.Proto.ibltPar`), and the side conditions of the contract -/
 theorem fact_iblt_constants :
     Facts.C07.ibltK = 6 ∧ Facts.C07.ibltMaxChain = 64 ∧ Facts.C07.ibltHk = 1 ∧ Facts.C07.ibltHc = 0 ∧ Facts.C07.bucketBytes = 44 ∧
